@@ -54,16 +54,16 @@ func copyTraversal(p *core.Prog) *ssa.Function {
 
 type c04ctx struct {
 	wrapper types.Object // the local spawn wrapper, when goroutines are started through one
-	p    *core.Prog
-	r    *core.Report
-	fn   *ssa.Function
-	syn  *core.FuncSyntax
-	info *types.Info
-	name string
-	ch   types.Object // completion channel
-	n    types.Object // counter
-	lits []*ast.FuncLit
-	gos  []*ast.GoStmt
+	p       *core.Prog
+	r       *core.Report
+	fn      *ssa.Function
+	syn     *core.FuncSyntax
+	info    *types.Info
+	name    string
+	ch      types.Object // completion channel
+	n       types.Object // counter
+	lits    []*ast.FuncLit
+	gos     []*ast.GoStmt
 }
 
 func runC04(p *core.Prog, r *core.Report) {
@@ -101,6 +101,9 @@ func runC04(p *core.Prog, r *core.Report) {
 	importOrderRule(p, r, "C04.R10")
 	// a child whose upload failed is never remembered as present (shared with C05.R7)
 	afterFailureRule(p, r, "C04.R11")
+	c04R12(p, r)
+	// an interrupted copy is followed by a Close with the cancelled context: what was in the layout stays complete (shared with C08.R9)
+	c08R9(p, r, "C04.R13")
 }
 
 // resolveLit returns the function literal a go statement runs: a literal, or a local variable
@@ -779,14 +782,35 @@ func (cx *c04ctx) r2r3r5() {
 	} else {
 		last := barriers[len(barriers)-1]
 		barrierPos = last.Pos()
+		// the variable the completions are collected in: assigned from a receive, or from a variable
+		// that a receive defined (`if cur := <-ch; cur != nil { err = cur }`)
+		recvVars := map[types.Object]bool{}
 		ast.Inspect(last.Body, func(x ast.Node) bool {
 			if as, ok := x.(*ast.AssignStmt); ok && len(as.Lhs) == 1 && len(as.Rhs) == 1 && core.IsRecvFrom(cx.info, as.Rhs[0], cx.ch) {
 				if id, ok := as.Lhs[0].(*ast.Ident); ok {
-					errObj = cx.info.Uses[id]
+					if o := cx.info.Uses[id]; o != nil {
+						errObj = o
+					} else if o := cx.info.Defs[id]; o != nil {
+						recvVars[o] = true
+					}
 				}
 			}
 			return true
 		})
+		if errObj == nil {
+			ast.Inspect(last.Body, func(x ast.Node) bool {
+				if as, ok := x.(*ast.AssignStmt); ok && len(as.Lhs) == 1 && len(as.Rhs) == 1 {
+					if rid, ok := ast.Unparen(as.Rhs[0]).(*ast.Ident); ok && recvVars[cx.info.Uses[rid]] {
+						if id, ok := as.Lhs[0].(*ast.Ident); ok {
+							if o := cx.info.Uses[id]; o != nil {
+								errObj = o
+							}
+						}
+					}
+				}
+				return true
+			})
+		}
 		for _, b := range g.Blocks {
 			if b.Kind == cfg.KindForDone && b.Stmt == ast.Stmt(last) {
 				doneBlk = b
@@ -1263,6 +1287,218 @@ func globalNamed(v ssa.Value, name string) bool {
 		if g, ok := u.X.(*ssa.Global); ok {
 			return g.Name() == name
 		}
+	}
+	return false
+}
+
+// ---------------------------------------------------------------------------------------------
+// R12 the barrier never forgets a failure
+
+// c04R12: in the root package, a completion received from an error channel inside a loop may
+// replace the error collected so far only when nothing had been collected (the store sits behind a
+// nil test of the collected error) or when the new completion is itself a failure (behind a non-nil
+// test of the received value); a completion that is thrown away is thrown away only when a failure
+// has already been collected. Otherwise a child that finished after a cancelled one resets the
+// barrier's verdict to success and the parent manifest and the tag are written over an incomplete
+// image.
+func c04R12(p *core.Prog, r *core.Report) {
+	const rule = "C04.R12"
+	r.Rule(rule, "the barrier never forgets a failure: inside a loop, a completion received from an error channel is stored over the collected error only behind a nil test of that error or a non-nil test of the received value, and is discarded only behind a non-nil test of the collected error (a child that finishes after a cancelled one must not turn the verdict back into success)", 3)
+	errT := types.Universe.Lookup("error").Type()
+	isErrChan := func(t types.Type) bool {
+		ch, ok := t.Underlying().(*types.Chan)
+		return ok && types.Identical(ch.Elem(), errT)
+	}
+	isCollected := func(x ssa.Value) bool {
+		if !types.Identical(x.Type(), errT) {
+			return false
+		}
+		switch y := x.(type) {
+		case *ssa.Phi:
+			return true
+		case *ssa.UnOp:
+			if y.Op == token.MUL {
+				_, ok := y.X.(*ssa.Alloc)
+				return ok
+			}
+		}
+		return false
+	}
+	n := 0
+	for _, fn := range pkgFuncs(p, ".") {
+		if len(fn.Blocks) == 0 {
+			continue
+		}
+		type rcv struct {
+			at  ssa.Instruction
+			val ssa.Value // nil: the received value is not bound
+		}
+		var recvs []rcv
+		for _, b := range fn.Blocks {
+			for _, in := range b.Instrs {
+				switch x := in.(type) {
+				case *ssa.UnOp:
+					if x.Op != token.ARROW || !isErrChan(x.X.Type()) {
+						continue
+					}
+					var v ssa.Value = x
+					if x.CommaOk {
+						v = nil
+						for _, u := range *x.Referrers() {
+							if ex, ok := u.(*ssa.Extract); ok && ex.Index == 0 {
+								v = ex
+							}
+						}
+					}
+					recvs = append(recvs, rcv{in, v})
+				case *ssa.Select:
+					k := 0
+					for _, st := range x.States {
+						if st.Dir != types.RecvOnly {
+							continue
+						}
+						idx := 2 + k
+						k++
+						if !isErrChan(st.Chan.Type()) {
+							continue
+						}
+						var v ssa.Value
+						for _, u := range *x.Referrers() {
+							if ex, ok := u.(*ssa.Extract); ok && ex.Index == idx {
+								v = ex
+							}
+						}
+						recvs = append(recvs, rcv{in, v})
+					}
+				}
+			}
+		}
+		if len(recvs) == 0 {
+			continue
+		}
+		lab := labeler{}
+		for _, rc := range recvs {
+			if !blockInCycle(rc.at.Block()) {
+				continue
+			}
+			n++
+			// only tests made inside the loop count: a test of the collected error made before the
+			// loop says nothing about what the loop has collected since
+			loopGuard := func(b *ssa.BasicBlock, pred func(c ssa.Value, pol bool) bool) bool {
+				for _, g := range core.Guards(b) {
+					if g.If == nil || g.If.Block().Parent() != fn || !blockReaches(rc.at.Block(), g.If.Block()) {
+						continue
+					}
+					c, gp := core.StripNot(g.Cond, g.Polarity)
+					if pred(c, gp) {
+						return true
+					}
+				}
+				return false
+			}
+			nonNilGuard := func(b *ssa.BasicBlock, match func(x ssa.Value) bool) bool {
+				return loopGuard(b, func(c ssa.Value, pol bool) bool {
+					x, neq, ok := errCmpNil(c)
+					return ok && neq == pol && match(x)
+				})
+			}
+			nilGuard := func(b *ssa.BasicBlock, match func(x ssa.Value) bool) bool {
+				return loopGuard(b, func(c ssa.Value, pol bool) bool {
+					x, neq, ok := errCmpNil(c)
+					return ok && neq != pol && match(x)
+				})
+			}
+			used := false
+			ok, why := true, ""
+			if rc.val != nil {
+				for _, u := range *rc.val.Referrers() {
+					switch x := u.(type) {
+					case *ssa.Store:
+						if x.Val != rc.val {
+							continue
+						}
+						used = true
+						cell, isCell := x.Addr.(*ssa.Alloc)
+						if !isCell {
+							continue
+						}
+						sameCell := func(v ssa.Value) bool {
+							l, ok := v.(*ssa.UnOp)
+							return ok && l.Op == token.MUL && l.X == cell
+						}
+						if !nilGuard(x.Block(), sameCell) && !nonNilGuard(x.Block(), func(v ssa.Value) bool { return v == rc.val }) {
+							ok, why = false, "stored over the collected error at "+p.Pos(x.Pos())
+						}
+					case *ssa.Phi:
+						for i, e := range x.Edges {
+							if e != rc.val {
+								continue
+							}
+							used = true
+							pred := x.Block().Preds[i]
+							g := func(b *ssa.BasicBlock) bool {
+								return nilGuard(b, func(v ssa.Value) bool { _, isPhi := v.(*ssa.Phi); return isPhi && types.Identical(v.Type(), errT) }) ||
+									nonNilGuard(b, func(v ssa.Value) bool { return v == rc.val })
+							}
+							// the edge itself may be the guarded one (pred ends in the test)
+							edgeOK := false
+							if ifi, isIf := core.LastInstr(pred).(*ssa.If); isIf && len(pred.Succs) == 2 {
+								c, pol := core.StripNot(ifi.Cond, true)
+								if xx, neq, isCmp := errCmpNil(c); isCmp {
+									taken := pred.Succs[0] == x.Block() // true edge leads to the phi
+									if pred.Succs[0] == pred.Succs[1] {
+										taken = false
+									}
+									truth := taken == pol
+									if xx == rc.val && neq == truth {
+										edgeOK = true
+									}
+								}
+							}
+							if !g(pred) && !edgeOK {
+								ok, why = false, "merged over the collected error at "+p.Pos(x.Pos())
+							}
+						}
+					case *ssa.DebugRef:
+					default:
+						used = true
+					}
+				}
+			}
+			if !used {
+				// thrown away
+				if !nonNilGuard(rc.at.Block(), isCollected) {
+					ok, why = false, "discarded although no failure has been collected"
+				}
+			}
+			r.Check(ok, rule, p.FuncName(fn), lab.next("completion received in a loop"), p.Pos(rc.at.Pos()),
+				"the received completion is "+why+": a nil completion that arrives after a failed or cancelled child clears the failure, and the manifest (with the tag) is written although a child is missing")
+		}
+	}
+	if n == 0 {
+		r.Undecided(rule, "regclient", "completion receive in a loop", "", "no receive from an error channel inside a loop found in the root package")
+	}
+}
+
+// blockInCycle: the block can reach itself.
+func blockInCycle(b *ssa.BasicBlock) bool { return blockReaches(b, b) }
+
+// blockReaches: to is reachable from from over at least one edge.
+func blockReaches(from, to *ssa.BasicBlock) bool {
+	b := to
+	seen := map[*ssa.BasicBlock]bool{}
+	stack := append([]*ssa.BasicBlock{}, from.Succs...)
+	for len(stack) > 0 {
+		x := stack[len(stack)-1]
+		stack = stack[:len(stack)-1]
+		if x == b {
+			return true
+		}
+		if seen[x] {
+			continue
+		}
+		seen[x] = true
+		stack = append(stack, x.Succs...)
 	}
 	return false
 }
